@@ -14,6 +14,9 @@ Decided statically are the structural clauses of the statement that live in the 
                 pair's index as record id, and they are stored in the fields of the same name.
   ORDER-pipeline hybrid_protocol runs pad -> shuffle -> PRF+reshard -> aggregate pairs -> breakdown reveal+aggregate ->
                 cross-shard finalize -> (leader) DP noise, each stage consuming the previous stage's output.
+  SAT-merge     "each bucket total saturates at the output width ... for any number of shards": the cross-shard merge of
+                histograms (Histogram::merge, used by finalize) is the saturating addition of the two value vectors,
+                stored back into self.values - a wrapping add makes the result the per-shard totals modulo 2^width.
   COLLECTIVE    every return of hybrid_protocol passes through each cross-shard collective (sharded shuffle, reshard,
                 finalize): a shard that returns early on a shard-local condition leaves the other shards waiting.
 """
@@ -37,6 +40,7 @@ def run(ctx):
     group(ctx, facts)
     wire_agg(ctx, facts)
     pipeline(ctx, facts)
+    sat_merge(ctx, facts)
     ctx.assume("integer_add / sharded shuffle / OPRF / breakdown-reveal aggregation compute what their names say (C07, C05, C19 and the not-decided numerical part)")
     ctx.assume("end-to-end equality of the histogram with the plaintext reference is not decided")
 
@@ -300,3 +304,30 @@ def guard_sig(b, dom, bb):
         c = calls[0].split("::")[-1] if calls else ""
         return (c + "(" + ",".join(names[:2]) + ")") if c else (",".join(names[:2]) or s_[:30])
     return f"{op}:{sh(l)}{(' ' + sh(r)) if r is not None else ''}".strip()
+
+
+def sat_merge(ctx, facts):
+    ctx.rule("SAT-merge: <Histogram<HV, B> as ShardAssembledResult>::merge performs exactly one addition, integer_sat_add(self.values, other.values), awaits it with `?` and assigns the result to self.values")
+    root = "<protocol::basics::shard_fin::Histogram<HV, B> as protocol::basics::shard_fin::ShardAssembledResult<C>>::merge"
+    b = malsec.async_body(facts, root)
+    if b is None:
+        ctx.missing("SAT-merge", "Histogram::merge")
+        return
+    ctx.count(bodies=1)
+    adds = [(bb, t) for bb, t in b.calls() if re.search(r"addition_sequential::integer_(sat_)?add$|ops::Add::add$|AddAssign::add_assign$", F.callee(t)[0] or "")]
+    sat = [(bb, t) for bb, t in adds if (F.callee(t)[0] or "").endswith("integer_sat_add")]
+    ok = len(adds) == 1 and len(sat) == 1
+    ctx.ob("SAT-merge", "saturating-addition", ok, "shard histograms are merged with integer_sat_add" if ok else "the cross-shard merge does not use (only) the saturating addition: bucket totals that exceed the output width wrap around instead of saturating once more than one shard contributes", site_of(b, adds[0][0]) if adds else site_of(b))
+    if not sat:
+        return
+    bb, t = sat[0]
+    a2, a3 = str(flow.expr_of(b, t["args"][2], max_depth=20)), str(flow.expr_of(b, t["args"][3], max_depth=20))
+    oko = "values" in a2 and "values" in a3 and a2 != a3
+    ctx.ob("SAT-merge", "operands", oko, "self.values + other.values" if oko else "the merge does not add the two histograms' value vectors", site_of(b, bb))
+    okw = False
+    for wbb, idx, st in b.iter_assigns():
+        pl = st["p"]
+        if len(pl) > 1 and isinstance(pl[-1], list) and pl[-1][0] == "f" and pl[-1][2:] == ["values"] and st["r"]["k"] == "use":
+            e = str(flow.expr_of(b, st["r"]["o"], max_depth=40))
+            okw = "integer_sat_add" in e and "Try::branch" in e
+    ctx.ob("SAT-merge", "result-stored", okw, "self.values = sum" if okw else "the saturated sum is not stored back into self.values (the merge has no effect or stores something else)", site_of(b))
